@@ -9,6 +9,9 @@
   C18.context.call           runtime.Context.call calls exactly `__obj` (or its `__call__` when that carries a pass-arg marker) once,
                              with the documented first-argument injection, `_loop_vars`/`_block_vars` removed, StopIteration -> undefined
   C18.native.composition     table: the real pieces composed on live callables
+  C18.native.every_call_checked  table: the verdict for one callable changes between successive calls on one environment
+                             (flag set after first use, overriding check that looks at the receiver): every call is re-evaluated
+C18.call.gate quantifies over ANY environment state (unknown attributes of the environment are opaque): no memo can replace the check.
 """
 from __future__ import annotations
 
@@ -75,9 +78,33 @@ class CallGate(VC):
         _sbx.install_star_calls(I)
         I.specs["SandboxedEnvironment.is_safe_callable"] = A.abstract_fn("is_safe_callable", returns="bool")
         I.specs["Context.call"] = A.abstract_fn("context.call", returns="obj", raises=(("any", Exception),))
+        # Everything else the method might consult is decided symbolically, so that the clause below is decided for ANY
+        # environment state carried over from earlier calls: attributes of the callable are present-or-missing opaque
+        # values, its type is an opaque class, unknown environment attributes (caches, memo sets ...) are opaque objects
+        # whose membership tests / method calls return arbitrary results.
+        attr_presence_spec(I, None)
+        type_fn = z3.Function("py_type", Obj, Obj)
+        from pyvc import models as M_
+
+        def builtin_type(I_, st, args, kwargs, node):
+            if len(args) == 1 and isinstance(args[0], Sym) and args[0].k == "obj":
+                return [(st, Sym(type_fn(args[0].t), "obj"))]
+            r = M_.instantiate(I_, st, type, args, kwargs, node)
+            if r is None:
+                from pyvc.values import Unsupported
+                raise Unsupported("type(...)", node)
+            return r
+
+        I.specs[("fn", id(type))] = builtin_type
+        I.specs["contains"] = lambda I_, st, args, kwargs, node: (
+            [(st, fresh("opaque_contains", "bool"))] if isinstance(args[0], Sym) and args[0].k == "obj" else None)
+        I.specs["method_obj"] = lambda I_, st, args, kwargs, node: A.abstract_fn("opaque." + str(args[1]), returns="obj")(I_, st, [args[0]] + list(args[2:]), kwargs, node)
+        I.specs["call_obj"] = A.abstract_fn("opaque_call", returns="obj")
+        I.specs["getitem_obj"] = lambda I_, st, args, kwargs, node: [(st, fresh("opaque_item", "obj"))]
+        I.specs["setitem_obj"] = lambda I_, st, args, kwargs, node: [(st, None)]
 
     def setup(self, I, st):
-        self.env = A.obj(st, S.SandboxedEnvironment, "env")
+        self.env = A.obj(st, S.SandboxedEnvironment, "env", open=True)
         self.ctx = A.obj(st, R.Context, "context")
         self.obj = sym("obj", "obj")
         self.args = A.sseq(st, "args", "obj")
@@ -85,7 +112,12 @@ class CallGate(VC):
         return "locals", {"__self": self.env, "__context": self.ctx, "__obj": self.obj, "args": self.args, "kwargs": self.kwargs}
 
     def p_gate(self, pre, out):
+        """on EVERY invocation: is_safe_callable(__obj) is evaluated for this very object, before __context.call, and the call
+        proceeds only if THAT evaluation returned true; nothing else (in particular no state of the environment) decides it,
+        and nothing else is called"""
         ic, cc = calls(out, "is_safe_callable"), calls(out, "context.call")
+        if calls(out, "opaque_call"):
+            return False
         if len(ic) != 1 or ic[0].args[0] != self.env or len(ic[0].args) != 2 or not same(ic[0].args[1], self.obj) or ic[0].kwargs:
             return False
         r = to_term(ic[0].result, "bool")
@@ -126,39 +158,63 @@ class CallGate(VC):
 
 
 def replay_call_gate(w):
-    log = []
+    """The real SandboxedEnvironment.call, invoked repeatedly on ONE environment with the verdict of is_safe_callable changing
+    between the calls (first accepted, then as in the witness), for a plain function, for fresh bound methods of one function
+    and for a callable instance: every invocation must evaluate the check for its object and obey that evaluation."""
+    probs, detail = [], ""
 
-    class Env(S.SandboxedEnvironment):
-        def is_safe_callable(self, obj):
-            log.append(("check", obj))
-            return w["safe"]
+    class K:
+        def m(self, *a, **k):
+            ran.append("ran")
 
-    class Ctx:
-        def call(self, *a, **k):
-            log.append(("context.call", a, k))
-            return "RESULT"
+    class Inst:
+        def __call__(self, *a, **k):
+            ran.append("ran")
 
-    def target(*a, **k):
-        log.append(("ran",))
+    def plain(*a, **k):
+        ran.append("ran")
 
-    env = Env()
+    carriers = [("plain function", lambda: plain), ("bound method (new bound method object per call)", lambda: K().m), ("callable instance", Inst)]
     args = tuple(range(w.get("n_args", 1)))
     kwargs = {k: i for i, k in enumerate(w.get("kwargs", ["k"]))}
-    try:
-        r = env.call(Ctx(), target, *args, **kwargs)
-        err = None
-    except SecurityError as ex:
-        r, err = None, "SecurityError"
-    except Exception as ex:
-        r, err = None, type(ex).__name__
-    if w["safe"]:
-        want = [("check", target), ("context.call", (target,) + args, kwargs)]
-        bad = log != want or r != "RESULT" or err is not None
-    else:
-        want = [("check", target)]
-        bad = log != want or err != "SecurityError"
-    return (bad, f"SandboxedEnvironment.call with is_safe_callable->{w['safe']}: events {[l[0] for l in log]}, result {r!r}, error {err}; "
-                 f"contract: {[x[0] for x in want]}" + ("" if w["safe"] else " then SecurityError"))
+    for desc, mk in carriers:
+        for verdicts in ([w["safe"]], [True, w["safe"]], [True, True, w["safe"]], [False, w["safe"]]):
+            log, ran = [], []
+            it = iter(verdicts)
+            cur = {}
+
+            class Env(S.SandboxedEnvironment):
+                def is_safe_callable(self, obj):
+                    log.append(("check", obj))
+                    return cur["v"]
+
+            class Ctx:
+                def call(_ctx, *a, **k):  # noqa: N805 (keyword arguments named `self` must pass through)
+                    log.append(("context.call", a, k))
+                    return "RESULT"
+
+            env = Env()
+            for i, v in enumerate(verdicts):
+                cur["v"] = v
+                del log[:]
+                target = mk()
+                try:
+                    r = env.call(Ctx(), target, *args, **kwargs)
+                    err = None
+                except SecurityError:
+                    r, err = None, "SecurityError"
+                except Exception as ex:
+                    r, err = None, type(ex).__name__
+                if v:
+                    want = [("check", target), ("context.call", (target,) + args, kwargs)]
+                    bad = log != want or r != "RESULT" or err is not None
+                else:
+                    want = [("check", target)]
+                    bad = log != want or err != "SecurityError"
+                if bad:
+                    probs.append(f"{desc}, invocation {i + 1} of verdicts {verdicts}: events {[l[0] for l in log]}, result {r!r}, error {err}; "
+                                 f"contract: {[x[0] for x in want]}" + ("" if v else " then SecurityError"))
+    return (bool(probs), "SandboxedEnvironment.call: " + ("; ".join(probs[:3]) if probs else "every invocation evaluated is_safe_callable for its object and obeyed it"))
 
 
 # =====================================================================================================================
@@ -659,13 +715,89 @@ def native_composition(task, tier, seed):
     return out
 
 
+def native_every_call_checked(task, tier, seed):
+    """table: on one real environment the verdict for a callable legitimately changes between two template calls - a function
+    flagged alters_data after its first use; an overriding is_safe_callable that looks at the receiver of a bound method; a
+    callable instance flagged later - and the later call is refused before the callable runs (sync and async templates)"""
+    bad = []
+    for is_async in (False, True):
+        ran = []
+
+        def fn():
+            ran.append("fn")
+            return "ok"
+
+        class Account:
+            def __init__(self, locked):
+                self.locked = locked
+
+            def withdraw(self):
+                ran.append("withdraw:%s" % self.locked)
+                return "ok"
+
+        class Hook:
+            def __call__(self):
+                ran.append("hook")
+                return "ok"
+
+        class Env(S.SandboxedEnvironment):
+            def is_safe_callable(self, obj):
+                recv = getattr(obj, "__self__", None)
+                if isinstance(recv, Account) and recv.locked:
+                    return False
+                return super().is_safe_callable(obj)
+
+        env = Env(enable_async=is_async)
+        t = env.from_string("{{ f() }}")
+
+        def attempt(label, **ctx):
+            del ran[:]
+            try:
+                t.render(**ctx)
+                return (label, "rendered", list(ran))
+            except SecurityError:
+                return (label, "SecurityError", list(ran))
+            except Exception as ex:
+                return (label, type(ex).__name__, list(ran))
+
+        seq = []
+        seq.append((attempt("function, unflagged", f=fn), "rendered"))
+        fn.alters_data = True
+        seq.append((attempt("same function after alters_data = True", f=fn), "SecurityError"))
+        del fn.alters_data
+        seq.append((attempt("same function, flag removed", f=fn), "rendered"))
+        seq.append((attempt("bound method, open account", f=Account(False).withdraw), "rendered"))
+        seq.append((attempt("same method, locked account", f=Account(True).withdraw), "SecurityError"))
+        acc = Account(False)
+        seq.append((attempt("method of one account, open", f=acc.withdraw), "rendered"))
+        acc.locked = True
+        seq.append((attempt("method of the same account after locking", f=acc.withdraw), "SecurityError"))
+        h = Hook()
+        seq.append((attempt("callable instance, unflagged", f=h), "rendered"))
+        h.unsafe_callable = True
+        seq.append((attempt("same instance after unsafe_callable = True", f=h), "SecurityError"))
+        for (label, got, ran_), want in seq:
+            if got != want or (want == "SecurityError" and ran_):
+                bad.append(f"{'async' if is_async else 'sync'}: {label}: {got}, ran {ran_} (expected {want}{' before anything runs' if want == 'SecurityError' else ''})")
+    nm = "C18.native.every_call_checked"
+    if bad:
+        return [Res(nm, "refuted", "table", 0, "; ".join(bad[:3]), "table", {"cases": bad[:6]})]
+    return [Res(nm, "discharged", "table", 0, "9 successive calls x sync/async on one environment: every verdict re-evaluated", "table")]
+
+
+def replay_every_call(w):
+    rs = native_every_call_checked(None, "quick", 0)
+    return (rs[0].status == "refuted", rs[0].detail)
+
+
 def replay_composition(w):
     rs = native_composition(None, "quick", 0)
     return (rs[0].status == "refuted", rs[0].detail)
 
 
 TASKS = [CallGate(), IsSafeCallable(), UnsafeDecorator(), ContextCall(),
-         FnTask("C18", "C18.native.composition", native_composition, "table", replay_composition)]
+         FnTask("C18", "C18.native.composition", native_composition, "table", replay_composition),
+         FnTask("C18", "C18.native.every_call_checked", native_every_call_checked, "table", replay_every_call)]
 
 META = {
     "level": "proof",
